@@ -43,6 +43,9 @@ func (g *StreamGen) appendVarint(b []byte, v uint64) []byte {
 	if g.R.Chance(12) && len(enc) < 9 {
 		g.feat("nonminimal-varint")
 		pad := 1 + g.R.Intn(9-len(enc))
+		if g.R.Chance(25) {
+			pad = 10 - len(enc) // exactly ten bytes, the last one 0x00
+		}
 		enc[len(enc)-1] |= 0x80
 		for i := 0; i < pad-1; i++ {
 			enc = append(enc, 0x80)
@@ -118,7 +121,12 @@ func (g *StreamGen) unknownRecord(b []byte, used map[int]bool) []byte {
 			g.feat("nonminimal-tag")
 			enc := append([]byte{}, tail[:n]...)
 			enc[n-1] |= 0x80
-			for i := g.R.Intn(3); i > 0 && len(enc) < 9; i-- {
+			// one to three extra bytes, now and then all the way to the ten bytes a varint may have
+			extra := g.R.Intn(3)
+			if g.R.Chance(30) {
+				extra = 9 - len(enc)
+			}
+			for i := extra; i > 0 && len(enc) < 9; i-- {
 				enc = append(enc, 0x80)
 			}
 			enc = append(enc, 0x00)
@@ -134,7 +142,11 @@ func (g *StreamGen) appendTag(b []byte, num protowire.Number, wt protowire.Type)
 	if g.plainTags == 0 && g.R.Chance(4) && len(enc) < 9 {
 		g.feat("nonminimal-tag")
 		enc[len(enc)-1] |= 0x80
-		for i := g.R.Intn(2); i > 0; i-- {
+		extra := g.R.Intn(2)
+		if g.R.Chance(30) {
+			extra = 9 - len(enc) // the longest encoding a decoder has to accept: ten bytes
+		}
+		for i := extra; i > 0 && len(enc) < 9; i-- {
 			enc = append(enc, 0x80)
 		}
 		enc = append(enc, 0x00)
